@@ -215,7 +215,8 @@ def audit(prop_id, theorems, allowed_axioms=()):
         if "Closed under the global context" not in body:
             # lines of the form "name : type" possibly wrapped; take identifiers at line start
             for m in re.finditer(r"^([A-Za-z_][\w.']*)\s*:", body, re.M):
-                axs.append(m.group(1))
+                if m.group(1) not in ("Axioms", "Opaque", "Transparent"):
+                    axs.append(m.group(1))
         assumptions[name] = axs
         bad = [a for a in axs if not PRIMITIVE_OK.match(a) and a not in allowed_axioms]
         if bad:
